@@ -592,15 +592,17 @@ def check_visibility(out, orb, sta, kw, desc):
     if obs != exp:
         out.fail("visibility:stream", "visibility stream differs from (above-horizon samples + AOS/LOS/MAX events)", desc,
                  observed=len(obs), expected=len(exp))
+    def sph(date):
+        return orb.propagate(date).copy(frame=sta, form="spherical")
     for o in got:
         if not o.event:
             continue
+        # "zero" = the quantity vanishes or changes sign within the last 5 us (float noise of the station frame ~1e-9 rad)
         if o.event.info in ("AOS", "LOS") and type(o.event) is LS.SignalEvent:
-            rate = abs(o.phi_dot) + 1e-5
-            if abs(o.phi) > rate * 1e-5:     # zero within 10 us of motion
+            if abs(o.phi) > 3e-9 and not any(sph(o.date - k * US).phi * o.phi <= 0 for k in range(1, 6)):
                 out.fail("visibility:aos-los-elevation", "elevation at AOS/LOS is not zero", dict(desc, event=str(o.date)), observed=float(o.phi))
         if o.event.info == "MAX":
-            if abs(o.phi_dot) > 1e-8:
+            if abs(o.phi_dot) > 1e-9 and not any(sph(o.date - k * US).phi_dot * o.phi_dot <= 0 for k in range(1, 6)):
                 out.fail("visibility:max-rate", "elevation rate at MAX is not zero", dict(desc, event=str(o.date)), observed=float(o.phi_dot))
     # a caller-owned listeners list, used twice
     mine = [LS.NodeListener()]
